@@ -12,6 +12,7 @@ use std::panic::{catch_unwind, AssertUnwindSafe};
 
 mod deep;
 mod gen;
+mod laws;
 use gen::*;
 
 pub const MAX: u64 = nodejs_semver::MAX_SAFE_INTEGER;
@@ -625,6 +626,7 @@ fn usage() -> ! {
     eprintln!("       harness lines --in FILE --out FILE     (re-evaluate the request part of stored lines)");
     eprintln!("       harness timing --out FILE");
     eprintln!("       harness corpus --dir DIR --kind range|version --out FILE [--limit N]   (replay a fuzzer corpus)");
+    eprintln!("       harness laws --out FILE [--tier quick|thorough] [--seed N]   (pointwise laws on operands with thousands of alternatives)");
     eprintln!("       harness deep --out FILE [--tier quick|thorough] [--limit SECS]   (large operands, one child per family)");
     eprintln!("       harness deep-one FAMILY N | deep-input FAMILY N");
     std::process::exit(2)
@@ -726,6 +728,19 @@ fn main() {
             }
             o.w.flush().unwrap();
             eprintln!("corpus: {} inputs, {} lines", used, o.lines);
+        }
+        "laws" => {
+            // large-scale laws on the implementation alone (thousands of alternatives)
+            let out = get("--out").unwrap_or_else(|| usage());
+            let tier = get("--tier").unwrap_or("quick".into());
+            let seed: u64 = get("--seed").and_then(|s| s.parse().ok()).unwrap_or(1);
+            let t = std::time::Instant::now();
+            let r = std::panic::catch_unwind(|| laws::run(tier == "thorough", seed));
+            let body = match r {
+                Ok(vs) => format!("{{\"seconds\":{:.2},\"violations\":{}}}", t.elapsed().as_secs_f64(), laws::to_json(&vs)),
+                Err(_) => format!("{{\"seconds\":{:.2},\"panicked\":true,\"violations\":[]}}", t.elapsed().as_secs_f64()),
+            };
+            std::fs::write(out, body).unwrap();
         }
         "deep" => {
             let out = get("--out").unwrap_or_else(|| usage());
